@@ -144,6 +144,34 @@ static void g_default(int lam) {
     }
 }
 
+// ---- group: key lifetimes.  The FFT key is a self-contained image: after it has been built from bk, re-filling bk with another key set, or
+// deleting bk, must not change what tfhe_bootstrap[_woKS]_FFT computes with it.  A second key set (B) is alive all along.
+static void copy_bk(LweBootstrappingKey *dst, const LweBootstrappingKey *src) { // same parameters: overwrite every row, as a second tfhe_createLweBootstrappingKey on the object would
+    int n = src->in_out_params->n, kpl = src->bk_params->kpl, k = src->bk_params->tlwe_params->k;
+    for (int i = 0; i < n; i++) for (int p = 0; p < kpl; p++) { for (int q = 0; q <= k; q++) memcpy(dst->bk[i].all_sample[p].a[q].coefsT, src->bk[i].all_sample[p].a[q].coefsT, N * 4); dst->bk[i].all_sample[p].current_variance = src->bk[i].all_sample[p].current_variance; }
+    int tot = src->ks->n * src->ks->t * src->ks->base; for (int r = 0; r < tot; r++) { memcpy(dst->ks->ks0_raw[r].a, src->ks->ks0_raw[r].a, n * 4); dst->ks->ks0_raw[r].b = src->ks->ks0_raw[r].b; dst->ks->ks0_raw[r].current_variance = src->ks->ks0_raw[r].current_variance; }
+}
+static void g_lifetime(int k) {
+    ek::Set *A = ek::make(3, k, 2, 10, 8, 2, 101), *B = ek::make(3, k, 2, 10, 8, 2, 202);
+    LweSample *x = new_LweSample(A->lp), *oks = new_LweSample(A->lp), *oext = new_LweSample(&A->tp->extracted_lweparams);
+    static const char *STEP[] = {"fresh", "after-bk-was-refilled-with-another-key-set", "after-bk-was-deleted"};
+    for (int step = 0; step < 3; step++) {
+        if (step == 1) copy_bk(A->bk, B->bk);
+        if (step == 2) { delete_LweBootstrappingKey(A->bk); A->bk = new_LweBootstrappingKey(8, 2, B->lp, B->gp); copy_bk(A->bk, B->bk); } // the new object typically re-uses the freed storage
+        for (int p : targets(false)) {
+            std::string key = fmt("lifetime/k=%d/%s/p=%d", k, STEP[step], p);
+            if (!want(key)) continue; if (deadline()) break; current(key);
+            uint64_t xs = 900 + p; for (int i = 0; i < 3; i++) x->a[i] = (Torus32)splitmix(xs);
+            int ties = 0; x->b = 0; int q = gates::rounded_phase(x->a, 0, A->s->key, 3, N, &ties); int barb = ((p - q) % N2 + N2) % N2; x->b = (Torus32)(((uint32_t)barb << 21) + ((p & 1) ? (1u << 20) - 1 : 0u - (1u << 20) + 1));
+            check_input(key, A, x, MUS[0], step == 0 ? 0xF : 0x3, oks, oext, STEP[step]);          // A's FFT key must keep working under A's keys
+            if (step) check_input(key, B, x, MUS[1], 0xF, oks, oext, "second key set alive alongside");
+            nontrivial(1); outcome(mix(p < N, step * 8 + k));
+        }
+    }
+    current(fmt("lifetime/k=%d/(end-of-group)", k));
+    delete_LweSample(x); delete_LweSample(oks); delete_LweSample(oext); ek::destroy(A); ek::destroy(B);
+}
+
 static void group(const std::string &prefix, const std::function<void()> &fn, double tmo = 600) {
     if (!take_group(prefix)) return; if (deadline()) return;
     current(prefix + "(start)");
@@ -156,12 +184,14 @@ int main(int argc, char **argv) {
     init(argc, argv);
     struct Cf { int k, l, Bgbit; } cfs[] = {{1, 2, 10}, {1, 3, 7}, {1, 4, 8}, {1, 2, 16}, {2, 2, 10}, {2, 4, 8}};
     std::string part = opt("part", "all");
-    if (part == "all" || part == "big") group("dim/n=1100/k=1/l=2/Bgbit=10/", [] { g_dim(1100, 1, 2, 10); }, 900);   // n > N
+    if (part == "all" || part == "big") { group("dim/n=1100/k=1/l=2/Bgbit=10/", [] { g_dim(1100, 1, 2, 10); }, 900);   // n > N
+        for (int k : {1, 2}) group(fmt("lifetime/k=%d/", k), [=] { g_lifetime(k); }); }   // and the key-lifetime histories under guard pages / ASan
     if (part == "all" || part == "main") {
         for (auto c : cfs) for (int n : {2, 3, 8, 9}) { if (quick() && (n == 3 || n == 8) && !(c.k == 1 && c.l == 2 && c.Bgbit == 10)) continue; group(fmt("dim/n=%d/k=%d/l=%d/Bgbit=%d/", n, c.k, c.l, c.Bgbit), [=] { g_dim(n, c.k, c.l, c.Bgbit); }); }
         for (auto c : cfs) { if (quick() && c.k == 2 && c.l == 4) continue; group(fmt("trivial/k=%d/l=%d/Bgbit=%d/", c.k, c.l, c.Bgbit), [=] { g_trivial(c.k, c.l, c.Bgbit); }); }
         for (auto c : cfs) for (int n : {1, 3}) { if (quick() && (c.Bgbit == 16 || (c.k == 2 && n == 3))) continue; group(fmt("testpoly/n=%d/k=%d/l=%d/Bgbit=%d/", n, c.k, c.l, c.Bgbit), [=] { g_testpoly(n, c.k, c.l, c.Bgbit); }); }
         for (int s : {1, 0}) group(fmt("n1/s=%d/", s), [=] { g_n1(s); });
+        for (int k : {1, 2}) group(fmt("lifetime/k=%d/", k), [=] { g_lifetime(k); });
         for (int lam : {128, 80}) group(fmt("default/lambda=%d/", lam), [=] { g_default(lam); }, 1200);
     }
     sample("dim/n=9/k=2/l=4/Bgbit=8/mask=0/mu=0/p=1024: seeded mask, b solved so that p = N exactly: all four variants must return -mu within the analytic budget");
